@@ -6,7 +6,9 @@ without waiting (op, q, a), the task that calls it (host), the cancel scopes the
 small program on its own event loop:
 
   vstock / veager   the controlled loop harness/vloop.py, stock / with asyncio.eager_task_factory,
-  asyncio / uvloop  anyio.run() on the plain asyncio loop / on uvloop.
+  asyncio           anyio.run() on the plain asyncio loop,
+  uvloop            anyio.run() on uvloop; creating a uvloop per cell costs ~30 ms, so the programs of
+                    one batch run one after the other, each as its own task, on one loop.
 
 Observation, exactly as the property names it: a callback is queued with loop.call_soon immediately
 before the call; `yielded` says whether it had run when the call returned or raised.  `before` and
